@@ -214,7 +214,11 @@ PExpr(ts) ==
               IF r[1] # "ok" THEN Err
               ELSE <<"ok", IF l[3][1][1] = "&&" THEN And(l[2], r[2]) ELSE Or(l[2], r[2]), r[3]>>
          ELSE l
-Parse(ts) == LET r == PExpr(ts) IN IF r[1] = "ok" /\ r[3] = <<>> THEN <<"ok", r[2]>> ELSE Err
+\* compile_filter's two shorthands: the empty text is `*`, a lone `!` is `!*`
+StarAtom == Atom(<<"*">>, "", NoLit)
+Parse(ts) == IF ts = <<>> THEN <<"ok", Leaf(StarAtom)>>
+             ELSE IF ts = <<<<"!">>>> THEN <<"ok", Not(Leaf(StarAtom))>>
+             ELSE LET r == PExpr(ts) IN IF r[1] = "ok" /\ r[3] = <<>> THEN <<"ok", r[2]>> ELSE Err
 
 RECURSIVE RenderFull(_), RenderMin(_)
 \* every operand parenthesised
@@ -233,7 +237,7 @@ RenderMin(t) ==
                   \o <<<<IF t[1] = "and" THEN "&&" ELSE "||">>>> \o RenderMin(t[3])
 
 \* A filter is a token sequence; the default filter of a fresh logger is `*`.
-AllFilter == <<TAtom(Atom(<<"*">>, "", NoLit))>>
+AllFilter == <<TAtom(StarAtom)>>
 WellFormed(f) == Parse(f)[1] = "ok"
 Matches(f, e) == Denote(Parse(f)[2], e)
 
@@ -286,7 +290,7 @@ TreeEntries(k) ==
 \* (d) grammar: every token string up to TokLen over this alphabet
 GramToks == {TAtom(Atom(<<"Foo">>, "", NoLit)), TAtom(Atom(<<"Meta", "Q">>, "==", IntV(1))),
              <<"!">>, <<"&&">>, <<"||">>, <<"(">>, <<")">>}
-TokStrings(n) == UNION {[1..k -> GramToks] : k \in 1..n}
+TokStrings(n) == UNION {[1..k -> GramToks] : k \in 0..n}
 
 (****************************** the log machine ****************************)
 VARIABLES arr,      \* ghost: every entry that was logged while not paused, in arrival order; ids are indices
@@ -417,7 +421,7 @@ ValuationsComplete == IsP("tree") =>
 ParseStable == IsP("toks") => LET p == Parse(probe[2]) IN
                    p[1] = "ok" => /\ Parse(RenderMin(p[2])) = p
                                   /\ Parse(RenderFull(p[2])) = p
-                                  /\ Len(RenderMin(p[2])) <= Len(probe[2])
+                                  /\ (Len(probe[2]) > 1 => Len(RenderMin(p[2])) <= Len(probe[2]))
 \* laws of the comparison verdicts
 CmpLaws == IsP("atom") /\ Len(probe[2].sel) = 3 /\ ~IsBare(probe[2]) =>
     \A f \in Selected(probe[2], probe[3]) :
